@@ -361,6 +361,7 @@ def fingerprint():
 
 
 _defaults = {}
+_reg_attrs = {}
 _caches = []          # functools caches declared at module level in miros
 import functools as _functools
 _LRU_TYPE = type(_functools.lru_cache(maxsize=None)(lambda: None))
@@ -441,9 +442,18 @@ def reset_globals():
   hsm = mods['hsm']
   ao = mods['activeobject']
   sig = ev.signals
+  rs = ev.return_status
+  # the registries are re-initialised in place; instance attributes they did not have when the seams were installed
+  # (say a lock created lazily on first use) go too, so that every run meets the registry as a fresh process does
+  for reg, key in ((sig, 'sig_attrs'), (rs, 'rs_attrs')):
+    d = getattr(reg, '__dict__', None)
+    if isinstance(d, dict):
+      if key not in _reg_attrs:
+        _reg_attrs[key] = set(d.keys())
+      for k in [k for k in d if k not in _reg_attrs[key]]:
+        del d[k]
   collections.OrderedDict.clear(sig)
   sig.__init__()
-  rs = ev.return_status
   collections.OrderedDict.clear(rs)
   rs.__init__()
   # the singleton wrappers keep their identity, the instances are recreated in the run
